@@ -248,6 +248,13 @@ def harness_cases(tier, sd):
                           {"op": "nonedit", "kind": "comment"}, B(top), B(top)])
         add("dry", name, [B(top), es, B(top, "dry"), B(top), B(top, "dry"), B(top)], twin="dry")
         add("dry", name, [B(top), es, B(top, "dry"), B(top, fail=[inner[0]]), B(top, "dry"), B(top)])
+        # a transient fault (sources directory unreadable) during a dry run must leave no trace
+        fk = "src" if srcs else None
+        if fk:
+            add("dryf", name, [B(top), {"op": "fault", "kind": fk}, B(top, "dry"), {"op": "unfault", "kind": fk}, B(top), B(top)], twin="dry")
+            add("dryf", name, [B(top), es, {"op": "fault", "kind": fk}, B(top, "dry"), {"op": "unfault", "kind": fk}, B(top)], twin="dry")
+        if gens:
+            add("dryf", name, [B(top), {"op": "fault", "kind": "gen"}, B(top, "dry"), {"op": "unfault", "kind": "gen"}, B(top), B(top)], twin="dry")
         add("gc", name, [B(top), B(top, gc=True), es, B(top, gc=True), B(top)], twin="gc")
         add("gc", name, [B(top), B(top, gc=True, index=True), es, B(top), B(top)], twin="gc")
         add("fail", name, [B(top), es, B(top, fail=[inner[0]]), B(top), B(top)])
@@ -263,6 +270,15 @@ def harness_cases(tier, sd):
                     add("dir", name, [B(top), {"op": "edit_src", "s": d, "kind": kind}, B(top), {"op": "edit_src", "s": d, "kind": kind}, B(top)])
         # second run on the same Project object (REPL): output must not be re-delivered
         add("rerun", name, [B(top, rerun=True), es, B(top, rerun=True)])
+        # REPL session: several runs and source edits on one loaded Project
+        if s0:
+            others = [n for n in sorted(shape["targets"]) if n != top]
+            # (the session's project is loaded after a complete build, so it starts up to date)
+            add("sess", name, [B(top), B(top), es, B(inner[0], reuse=True), B(top, reuse=True)])
+            add("sess", name, [B(top), B(top), es, B(top, reuse=True, fail=[inner[0]]), B(top, reuse=True), B(top, reuse=True)])
+            add("sess", name, [B(top), es, B(inner[0], reuse=True), B(top, reuse=True)])
+            if others:
+                add("sess", name, [B(top), B(top), es, B(others[-1], reuse=True), B(top, reuse=True), es, B(top, reuse=True)])
     # (c) systematic crash enumeration: every point x label x hit on selected shapes
     crash_shapes = ["chain", "generated"] if quick else ["chain", "generated", "diamond", "twopkg", "always"]
     for name in crash_shapes:
